@@ -20,7 +20,8 @@ ASSUMPTIONS = [
     'G1 is a deviance rule derived from the builder: filtered_msgs is only appended under filters_active',
 ]
 MANIFEST = {'text': 'structural necessary conditions for window delivery: the filtered index is never consulted for a stream without active filters, a window change resets both ranges consistently and renews the id, '
-                    'and the sender advances its sent-range exactly to the end of what it sent.',
+                    'and the sender advances its sent-range exactly to the end of what it sent.'
+                    ' Added: search paging continuation equals the loop counter advanced exactly once per examined element; the index builder marks as processed exactly what it filtered; time lookups use partition_point with a strict predicate, binary_search only on unique keys.',
             'technique': 'static analysis: who-may-read + dominating-guard (control dependence) check, store pairing, must-pass-through on the CFG'}
 
 SC = 'adlt::utils::remote_utils::StreamContext'
